@@ -23,6 +23,7 @@ import (
 
 	"github.com/google/uuid"
 	"google.golang.org/protobuf/types/known/durationpb"
+	"google.golang.org/protobuf/types/known/fieldmaskpb"
 	"google.golang.org/protobuf/types/known/timestamppb"
 
 	"go.6river.tech/mmmbbb/actions"
@@ -57,7 +58,7 @@ type result struct {
 const barrier = 2 * time.Second
 const stepTimeout = 5 * time.Second
 
-var allKinds = []string{"publish", "modack0", "seek", "ackpred", "dlforward", "seeksnap"}
+var allKinds = []string{"publish", "modack0", "seek", "ackpred", "dlforward", "seeksnap", "dlpred"}
 
 func main() {
 	schedF := flag.String("schedules", "", "")
@@ -273,7 +274,7 @@ func replay(s *schedule, seed int64, scratch string) (res result) {
 				}
 			}
 			for _, k := range allKinds {
-				if k == "seeksnap" && shared {
+				if (k == "seeksnap" || k == "dlpred") && shared {
 					continue
 				}
 				if compatible(k, append([]string{}, targets...), allSubs) {
@@ -361,6 +362,49 @@ func replay(s *schedule, seed int64, scratch string) (res result) {
 			wr.act = func(c context.Context) error {
 				_, err := w.Sub.Acknowledge(c, &pubsubpb.AcknowledgeRequest{Subscription: t, AckIds: []string{id}})
 				return err
+			}
+		case "dlpred":
+			// the predecessor of a blocked ordered message is DEAD-LETTERED (its attempt budget is used
+			// up; a nack through the action layer, as the push path does) into a topic nobody listens to
+			t := r.subs[targets[0]].real
+			void := r.name("topics", "void-"+x)
+			if _, err := w.Pub.CreateTopic(r.ctx, &pubsubpb.Topic{Name: void}); err != nil {
+				return fail("error", err.Error())
+			}
+			if _, err := w.Sub.UpdateSubscription(r.ctx, &pubsubpb.UpdateSubscriptionRequest{
+				Subscription: &pubsubpb.Subscription{Name: t, DeadLetterPolicy: &pubsubpb.DeadLetterPolicy{DeadLetterTopic: void, MaxDeliveryAttempts: 1}},
+				UpdateMask:   &fieldmaskpb.FieldMask{Paths: []string{"dead_letter_policy"}}}); err != nil {
+				return fail("error", err.Error())
+			}
+			for j := 0; j < 2; j++ {
+				if _, err := r.publish(r.topic, "d"+x); err != nil {
+					return fail("error", err.Error())
+				}
+			}
+			for m, su := range r.subs { // others: consume both, in order
+				if keep[m] {
+					continue
+				}
+				for j := 0; j < 2; j++ {
+					ms, err := r.pullAll(su.real)
+					if err != nil || len(ms) != 1 {
+						return fail("error", fmt.Sprintf("dlpred precondition on %s: %d, %v", m, len(ms), err))
+					}
+					if err := r.ack(su.real, ms); err != nil {
+						return fail("error", err.Error())
+					}
+				}
+			}
+			ms, err := r.pullAll(t) // the predecessor only (attempt 1 = its whole budget); the successor is blocked
+			if err != nil || len(ms) != 1 {
+				return fail("error", fmt.Sprintf("dlpred precondition: %d, %v", len(ms), err))
+			}
+			id, perr := uuid.Parse(ms[0].AckId)
+			if perr != nil {
+				return fail("error", perr.Error())
+			}
+			wr.act = func(c context.Context) error {
+				return w.Client.DoCtxTx(c, nil, actions.NewNackDeliveries(id).Execute)
 			}
 		case "seeksnap":
 			// the predecessor of a blocked ordered message is acknowledged by a seek to a snapshot of a
